@@ -50,7 +50,8 @@ def floors(tier):
     return {'evaluations': 250 * scale, 'crossval_cases': 80 * scale, 'holdout_cases': 40 * scale,
             'fullstack_cases': 80 * scale, 'fold_predictions_tainted_checked': 500 * scale,
             'denotation_compared': 250 * scale, 'apply_reducers_checked': 80 * scale, 'concrete_cases': 100 * scale,
-            'pandas_splitter_cases': 200 * scale // (1 if tier == 'quick' else 2), 'splitter_parts_checked': 1000 * scale // (1 if tier == 'quick' else 2)}
+            'default_reducer_cases': 100 * scale // (1 if tier == 'quick' else 2),
+            'default_reducer_zero_fold_cases': 30 * scale // (1 if tier == 'quick' else 2), 'pandas_splitter_cases': 200 * scale // (1 if tier == 'quick' else 2), 'splitter_parts_checked': 1000 * scale // (1 if tier == 'quick' else 2)}
 
 
 # ------------------------------------------------------------------------------------------------ taint monitor
@@ -423,6 +424,43 @@ def _judge_concrete(train, test, true, pred, tag):
     return None
 
 
+def check_default_reducer(ctx, pairs):
+    """Cross-validation scored with ``evaluation.Function(metric)`` and its *stock* reducer: the reported score is the mean
+    over ALL folds of the per-fold metric - including folds that score exactly 0."""
+    import statistics
+
+    from forml import evaluation, flow
+    from forml.flow._graph import port
+    from forml.io._input import extract
+    from forml.pipeline import wrap
+    from vlib import exprgen, graphgen
+
+    ctx.count('evaluations')
+    ctx.count('default_reducer_cases')
+    size = 1 + max(i for pair in pairs for part in pair for i in part)
+    rows = [(rid, 10 * rid) for rid in range(size)]
+    witness = {'default_reducer': True, 'pairs': pairs}
+    ctx.shape(('default-reducer', tuple((tuple(a), tuple(b)) for a, b in pairs)))
+    gc.collect()
+    port.Subscription._PORTS.clear()  # pylint: disable=protected-access
+    source = extract.Operator(exprgen.Const.builder([r[0] for r in rows]), exprgen.Const.builder(rows), exprgen.Unzip.builder())
+    method = evaluation.CrossVal(splitter=exprgen.ListFolds.builder(crossvalidator=exprgen.FixedCV(pairs)), nsplits=len(pairs))
+    per_fold = [min(10 * rid for rid in test) for _, test in pairs]
+    if 0 in per_fold and any(per_fold):
+        ctx.count('default_reducer_zero_fold_cases')
+    try:
+        comp = flow.Composition(source, wrap.Operator.mapper(exprgen.Recorder, tag='m')() >>
+                                evaluation.TrainTestScore(evaluation.Function(exprgen.least_label), method))
+        value = graphgen.evaluate_segment(comp.train)['tail']
+    except Exception as err:  # pylint: disable=broad-except
+        ctx.violation('concrete-evaluation-raises', f'cross-validation with the stock reducer over parts {pairs} raised {err!r}', witness)
+        return
+    expected = statistics.mean(per_fold)
+    if not isinstance(value, (int, float)) or abs(value - expected) > 1e-9:
+        ctx.violation('fold-missing-or-repeated-in-reduced-score', f'per-fold scores {per_fold} reported as {value!r}, the mean over all '
+                      f'folds is {expected}', witness)
+
+
 INDEX_KINDS = ['range', 'permuted', 'shifted', 'reversed', 'strings', 'duplicates', 'floats']
 
 
@@ -548,13 +586,21 @@ def run(ctx):
     crng = ctx.rng('concrete', ctx.shard)
     for k in range(ctx.pick(120, 4000) // ctx.nshards):
         check_concrete(ctx, concrete_pairs(crng), ['crossval', 'holdout', 'fullstack'][k % 3], crng.randint(1, 3))
+    for k in range(ctx.pick(120, 2000) // ctx.nshards):
+        pairs = concrete_pairs(crng)
+        if k % 2:  # make sure a fold holds out record 0 (that fold scores exactly 0) next to folds that do not
+            pairs = [(train, [r for r in test if r] or [1]) for train, test in pairs]
+            pairs[crng.randrange(len(pairs))][1].append(0)
+        check_default_reducer(ctx, pairs)
     for k in range(ctx.pick(240, 4000) // ctx.nshards):
         check_pandas_splitter(ctx, concrete_pairs(crng), INDEX_KINDS[k % len(INDEX_KINDS)], crng.choice(INDEX_KINDS), crng.random() < 0.3,
                               crng.randrange(10**6))
 
 
 def replay(ctx, witness):
-    if witness.get('splitter') == 'pandas':
+    if witness.get('default_reducer'):
+        check_default_reducer(ctx, [(list(a), list(b)) for a, b in witness['pairs']])
+    elif witness.get('splitter') == 'pandas':
         check_pandas_splitter(ctx, [(list(a), list(b)) for a, b in witness['pairs']], witness['feature_index'], witness['label_index'],
                               witness['multilabel'], witness['seed'])
     elif 'pairs' in witness:
